@@ -141,6 +141,12 @@ class CCodeMapper(SimplifyingSortingStringifyMapper):
             if is_zero(expr.exponent):
                 return "1"
             elif is_zero(expr.exponent - 1):
+                # The base stands where a power stood: as an operand of a
+                # product, quotient or remainder it must stay one operand
+                # (a % (b*c)**1 is not a % b * c).
+                from pymbolic.mapper.stringifier import PREC_POWER, PREC_PRODUCT
+                if enclosing_prec >= PREC_PRODUCT:
+                    return self.rec(expr.base, PREC_POWER)
                 return self.rec(expr.base, enclosing_prec)
             elif is_zero(expr.exponent - 2):
                 # The square is written as a product, but it must remain a
